@@ -161,6 +161,9 @@ pub struct BParams {
     pub env_heavy: bool,
     /// extra weight on cogeneration
     pub cogen_heavy: bool,
+    /// also generate auxiliary-bearing systems whose only CONSUMO service is NEPB or COGEN
+    /// (accepted by the parser; outside C06's claim, inside C08's and C16's)
+    pub aux_non_epb: bool,
 }
 
 impl BParams {
@@ -179,6 +182,7 @@ impl BParams {
             huge_kwh: 10_000_000,
             env_heavy: false,
             cogen_heavy: false,
+            aux_non_epb: false,
         }
     }
 }
@@ -459,7 +463,14 @@ fn sysg(n: usize, p: &BParams, no_elec: bool) -> BoxedStrategy<SysG> {
     } else {
         vec((select(srcs), vec(vg(huge), n), any::<u8>()), 0..=1).boxed()
     };
-    let aux_single = select(EPB_SRVS.to_vec())
+    let single_srvs: Vec<Srv> = if p.aux_non_epb {
+        let mut v = EPB_SRVS.to_vec();
+        v.extend([Srv::NEPB, Srv::COGEN, Srv::NEPB, Srv::COGEN]);
+        v
+    } else {
+        EPB_SRVS.to_vec()
+    };
+    let aux_single = select(single_srvs)
         .prop_flat_map(move |srv| {
             (
                 Just(srv),
